@@ -34,7 +34,10 @@ RULE = ("Hypothesis draws an operation set over the GraphQL-compatible sub-gramm
         "resolver result (fields under the GraphQL aliaser, no conditional omission, Enum members as enum_aliaser(name), string literals "
         "as enum_aliaser(value), Undefined as null); for each argument datum passed as a variable, execution succeeds iff "
         "deserialize(param_type, datum, aliaser) succeeds, the resolver then receives the equal value, and on failure the resolver's call "
-        "counter stays 0.  Non-trivial: the query has depth >= 2 and the operation has >= 1 argument.  Distinct = hash(program shape, datum shape).")
+        "counter stays 0.  An enumerated family of 24 cases covers @interface hierarchies (interface reached directly, through a plain "
+        "intermediate class, interface extending an interface, two levels) x resolver returning a list / one / Optional of the root interface: "
+        "each type implements exactly its Python ancestors marked @interface, owns its own and inherited fields, the schema validates and the "
+        "fragments query returns serialize(type(o), o) + __typename.  Non-trivial: the query has depth >= 2 and the operation has >= 1 argument.  Distinct = hash(program shape, datum shape).")
 ASSUMPTIONS = ["graphql-core 3.2 is the reference engine (validate_schema, print_schema, introspection, graphql_sync)",
                "argument data rejected by graphql-core's own variable coercion before apischema sees them count as rejected by both sides"]
 BUDGET = {"quick": 350, "thorough": 6000}
@@ -202,7 +205,123 @@ def nullable(f, cd) -> bool:
 
 # ---------------------------------------------------------------------------------------
 
+# ---------------------------------------------------------------------------------------
+# interfaces: a small enumerated family (classes marked @interface, reached directly or through intermediate classes)
+# ---------------------------------------------------------------------------------------
+# hierarchy = list of (name, base or None, is_interface, own field name); concrete classes are the ones returned by the resolver
+IFACE_HIERARCHIES = {
+    "direct": [("Animal", None, True, "name"), ("Dog", "Animal", False, "good"), ("Cat", "Animal", False, "lives")],
+    "through_plain": [("Animal", None, True, "name"), ("Pet", "Animal", False, "owner"), ("Dog", "Pet", False, "good"), ("Cat", "Animal", False, "lives")],
+    "iface_extends_iface": [("Identified", None, True, "ident"), ("Named", "Identified", True, "name"), ("User", "Named", False, "mail"), ("Bot", "Identified", False, "model")],
+    "two_levels": [("Animal", None, True, "name"), ("Pet", "Animal", True, "owner"), ("Mid", "Pet", False, "mid"), ("Dog", "Mid", False, "good"), ("Cat", "Pet", False, "lives")],
+}
+
+
+def iface_source(case) -> str:
+    lines = ["from apischema.graphql import interface", ""]
+    h = IFACE_HIERARCHIES[case["hierarchy"]]
+    for name, base, is_if, fld in h:
+        if is_if:
+            lines.append("@interface")
+        lines += ["@dataclass", f"class {name}({base}):" if base else f"class {name}:", f"    {fld}: int = {len(name)}", ""]
+    root = h[0][0]
+    concrete = [n for n, _, is_if, _ in h if not is_if and not any(b == n for _, b, _, _ in h)]
+    ret = {"list": f"List[{root}]", "single": root, "opt": f"Optional[{root}]"}[case["ret"]]
+    val = "[" + ", ".join(f"{c}()" for c in concrete) + "]" if case["ret"] == "list" else f"{concrete[0]}()"
+    lines += [f"def things() -> {ret}:", f"    return {val}", ""]
+    return "\n".join(lines) + "\n"
+
+
+def iface_cases():
+    for hname in IFACE_HIERARCHIES:
+        for ret in ("list", "single", "opt"):
+            for aliaser in ("id", "camel"):
+                yield {"iface_family": True, "hierarchy": hname, "ret": ret, "aliaser": aliaser}
+
+
+def enumerate_cases(tier):
+    yield from iface_cases()
+
+
+def evaluate_iface(case, ctx):
+    ctx.count()
+    src = build.PRELUDE + iface_source(case)
+    try:
+        b = build.load({"future": False, "enums": [], "newtypes": [], "classes": []}, source=src)
+    except Exception as e:
+        raise HarnessError(f"interface program does not build: {e!r}\n{src}")
+    sig0 = {"family": "interfaces", "hierarchy": case["hierarchy"], "ret": case["ret"]}
+    h = IFACE_HIERARCHIES[case["hierarchy"]]
+    mod = b.module
+    al = build.ALIASERS[case["aliaser"]]
+    try:
+        try:
+            # (only the leaf classes are registered: an intermediate concrete class would be a second object type matching the
+            # instances of its subclasses, and which of the two names such an instance is not fixed by the property)
+            leaves = [n for n, _, is_if, _ in h if not is_if and not any(bse == n for _, bse, _, _ in h)]
+            schema = graphql_schema(query=[mod.things], aliaser=al, types=[getattr(mod, n) for n in leaves])
+        except Exception as e:
+            ctx.violation({"kind": "schema_crash", "exc": type(e).__name__, **sig0}, case, f"{e!r}\n{iface_source(case)}")
+            return
+        errs = graphql.validate_schema(schema)
+        if errs:
+            ctx.violation({"kind": "schema_invalid", **sig0}, case, f"{[e.message for e in errs][:3]}\n{iface_source(case)}\n{graphql.print_schema(schema)}")
+            return
+        parent = {n: bse for n, bse, _, _ in h}
+        is_if = {n: i for n, _, i, _ in h}
+
+        def ancestors(n):
+            out = []
+            while parent[n]:
+                n = parent[n]
+                out.append(n)
+            return out
+
+        for n, _, i_, _ in h:
+            gt = schema.type_map.get(n)
+            want = sorted(a for a in ancestors(n) if is_if[a])
+            if gt is None and not i_ and n not in leaves:
+                continue
+            if gt is None:
+                ctx.violation({"kind": "type_missing", "type_is_interface": i_, **sig0}, case, f"{n} not in the schema\n{graphql.print_schema(schema)}")
+                return
+            if i_ != isinstance(gt, graphql.GraphQLInterfaceType):
+                ctx.violation({"kind": "interface_kind_differs", **sig0}, case, f"{n}: {type(gt).__name__}\n{graphql.print_schema(schema)}")
+                return
+            got = sorted(x.name for x in gt.interfaces)
+            if got != want:
+                ctx.violation({"kind": "implements_differs", "type_is_interface": i_, **sig0}, case,
+                              f"{n} implements {got}, its Python ancestors marked @interface are {want}\n{iface_source(case)}\n{graphql.print_schema(schema)}")
+                return
+            # fields: own + inherited, under the aliaser
+            fields_want = sorted(al(f) for m, _, _, f in h if m == n or m in ancestors(n))
+            if sorted(gt.fields) != fields_want:
+                ctx.violation({"kind": "fields_differ", **sig0}, case, f"{n} has fields {sorted(gt.fields)}, expected {fields_want}")
+                return
+        concrete = [n for n, _, i_, _ in h if not i_ and not any(bse == n for _, bse, _, _ in h)]
+        frags = " ".join("... on %s { %s }" % (c, " ".join(al(f) for m, _, _, f in h if m == c or m in ancestors(c))) for c in concrete)
+        res = graphql.graphql_sync(schema, "{ things { __typename %s } }" % frags)
+        if res.errors:
+            ctx.violation({"kind": "execution_errors", **sig0}, case, f"{[e.message for e in res.errors][:3]}\n{iface_source(case)}\n{graphql.print_schema(schema)}")
+            return
+        objs = mod.things()
+        objs = objs if isinstance(objs, list) else [objs]
+        want = [dict(serialize(type(o), o, aliaser=al), __typename=type(o).__name__) for o in objs]
+        got = res.data["things"]
+        got = got if isinstance(got, list) else [got]
+        if got != want:
+            ctx.violation({"kind": "execution_differs", **sig0}, case, f"{got!r} != {want!r}")
+            return
+        ctx.nontriv(["iface_family", case])
+        ctx.sample({"program": iface_source(case), "printed_schema": graphql.print_schema(schema)[:600]})
+        ctx.h("iface_family")
+    finally:
+        b.close()
+
+
 def evaluate(case, ctx):
+    if case.get("iface_family"):
+        return evaluate_iface(case, ctx)
     prog = case["prog"]
     ctx.count()
     src = build.render(prog)
